@@ -165,6 +165,28 @@ func init() {
 			e.fr.tuples[x] = []Term{v, e.fresh("atoierr", "Int")}
 			return true
 		},
+		"io/ioutil.ReadDir": func(e *enc, x *ssa.Call, a []Term) bool {
+			// (entries, error): the entries of a successful listing are non-nil
+			ss := e.so.of(x.Call.Signature().Results().At(0).Type())
+			r := e.fresh("readdir", ss)
+			e.assumps["ioutil.ReadDir: the listed entries are non-nil os.FileInfo values"] = true
+			e.assume(fmt.Sprintf("(and (>= (len_%[1]s %[2]s) 0) (forall ((i Int)) (! (=> (and (<= 0 i) (< i (len_%[1]s %[2]s))) (not (= (select (arr_%[1]s %[2]s) i) 0))) :pattern ((select (arr_%[1]s %[2]s) i)))))", ss, r))
+			e.fr.tuples[x] = []Term{r, e.fresh("readdirerr", "Int")}
+			return true
+		},
+		"path/filepath.Base": func(e *enc, x *ssa.Call, a []Term) bool {
+			e.fr.val[x] = e.define("pbase", "String", e.pathBase(a[0]))
+			return true
+		},
+		"path/filepath.Ext": func(e *enc, x *ssa.Call, a []Term) bool {
+			e.fr.val[x] = e.define("pext", "String", e.pathExt(a[0]))
+			return true
+		},
+		"path/filepath.FromSlash": func(e *enc, x *ssa.Call, a []Term) bool {
+			e.assumps["the path separator is '/' (filepath.FromSlash is the identity)"] = true
+			e.fr.val[x] = a[0]
+			return true
+		},
 		"strconv.Itoa": def("String", func(a []Term) Term { return fmt.Sprintf("(Itoa %s)", a[0]) }),
 		"sort.SearchStrings": func(e *enc, x *ssa.Call, a []Term) bool {
 			ss := e.so.of(x.Call.Args[0].Type())
@@ -185,6 +207,30 @@ func init() {
 		"(*regexp.Regexp).ReplaceAllString":   nil,
 	}
 	delete(externals, "(*regexp.Regexp).ReplaceAllString")
+}
+
+// filepath.Base / filepath.Ext on a '/'-separated system: deterministic functions of the path with per-occurrence facts.
+func (e *enc) pathBase(p Term) Term {
+	f := e.uf("PathBase", []string{"String"}, "String")
+	r := fmt.Sprintf("(%s %s)", f, p)
+	e.once("pathbase#"+p, func() {
+		e.assumps["filepath.Base contract ('/' separator): the last element, without slash; \".\" for an empty path, \"/\" for a path of slashes only"] = true
+		e.assume(fmt.Sprintf("(and (not (= %[1]s \"\")) (or (= %[1]s \"/\") (not (str.contains %[1]s \"/\"))))", r))
+		e.assume(fmt.Sprintf("(=> (and (not (= %[2]s \"\")) (not (str.suffixof \"/\" %[2]s))) (and (str.suffixof %[1]s %[2]s) (or (= %[1]s %[2]s) (str.suffixof (str.++ \"/\" %[1]s) %[2]s))))", r, p))
+	})
+	return r
+}
+
+func (e *enc) pathExt(p Term) Term {
+	f := e.uf("PathExt", []string{"String"}, "String")
+	r := fmt.Sprintf("(%s %s)", f, p)
+	base := e.pathBase(p)
+	e.once("pathext#"+p, func() {
+		e.assumps["filepath.Ext contract: the suffix beginning at the final dot of the last element, empty if that element has no dot"] = true
+		e.assume(fmt.Sprintf("(and (str.suffixof %[1]s %[2]s) (or (= %[1]s \"\") (and (str.prefixof \".\" %[1]s) (not (str.contains (str.substr %[1]s 1 (- (str.len %[1]s) 1)) \".\")) (not (str.contains %[1]s \"/\")))))", r, p))
+		e.assume(fmt.Sprintf("(=> (and (= %[1]s \"\") (not (= %[2]s \"\")) (not (str.suffixof \"/\" %[2]s))) (not (str.contains %[3]s \".\")))", r, p, base))
+	})
+	return r
 }
 
 func (e *enc) caseAxioms() {
